@@ -224,7 +224,7 @@ impl<'f, 't, 'w, W: Write> Formatter<'f, 't, 'w, W> {
     fn fmt_ampm_lower(&mut self, ext: Extension) -> Result<(), Error> {
         let hour = self
             .tm
-            .hour
+            .hour_ranged()
             .ok_or_else(|| err!("requires time to format AM/PM"))?
             .get();
         ext.write_str(
@@ -238,7 +238,7 @@ impl<'f, 't, 'w, W: Write> Formatter<'f, 't, 'w, W> {
     fn fmt_ampm_upper(&mut self, ext: Extension) -> Result<(), Error> {
         let hour = self
             .tm
-            .hour
+            .hour_ranged()
             .ok_or_else(|| err!("requires time to format AM/PM"))?
             .get();
         ext.write_str(
@@ -302,7 +302,7 @@ impl<'f, 't, 'w, W: Write> Formatter<'f, 't, 'w, W> {
     fn fmt_hour12_zero(&mut self, ext: Extension) -> Result<(), Error> {
         let mut hour = self
             .tm
-            .hour
+            .hour_ranged()
             .ok_or_else(|| err!("requires time to format hour"))?
             .get();
         if hour == 0 {
@@ -317,7 +317,7 @@ impl<'f, 't, 'w, W: Write> Formatter<'f, 't, 'w, W> {
     fn fmt_hour24_zero(&mut self, ext: Extension) -> Result<(), Error> {
         let hour = self
             .tm
-            .hour
+            .hour_ranged()
             .ok_or_else(|| err!("requires time to format hour"))?
             .get();
         ext.write_int(b'0', Some(2), hour, self.wtr)
@@ -327,7 +327,7 @@ impl<'f, 't, 'w, W: Write> Formatter<'f, 't, 'w, W> {
     fn fmt_hour12_space(&mut self, ext: Extension) -> Result<(), Error> {
         let mut hour = self
             .tm
-            .hour
+            .hour_ranged()
             .ok_or_else(|| err!("requires time to format hour"))?
             .get();
         if hour == 0 {
@@ -342,7 +342,7 @@ impl<'f, 't, 'w, W: Write> Formatter<'f, 't, 'w, W> {
     fn fmt_hour24_space(&mut self, ext: Extension) -> Result<(), Error> {
         let hour = self
             .tm
-            .hour
+            .hour_ranged()
             .ok_or_else(|| err!("requires time to format hour"))?
             .get();
         ext.write_int(b' ', Some(2), hour, self.wtr)
